@@ -81,11 +81,12 @@ Last(s) == s[Len(s)]
 \* r is a subsequence of s, order preserved: there is a strictly increasing embedding.
 \* (greedy left-most matching decides it)
 IsSubseq(r, s) ==
-  LET pos[i \in 0..Len(r)] ==          \* pos[i] = index in s matched by r[i], 0 = failure marker Len(s)+1
+  LET pos[i \in 0..Len(r)] ==          \* pos[i] = index in s matched by r[i]; Len(s)+1 = no match
         IF i = 0 THEN 0
-        ELSE IF pos[i-1] > Len(s) THEN Len(s) + 1
-        ELSE LET C == {j \in (pos[i-1]+1)..Len(s) : s[j] = r[i]}
-             IN IF C = {} THEN Len(s) + 1 ELSE CHOOSE j \in C : \A k \in C : j <= k
+        ELSE LET q == pos[i-1] IN           \* (bound once: TLC does not memoise recursive functions)
+             IF q > Len(s) THEN Len(s) + 1
+             ELSE LET C == {j \in (q+1)..Len(s) : s[j] = r[i]}
+                  IN IF C = {} THEN Len(s) + 1 ELSE CHOOSE j \in C : \A k \in C : j <= k
   IN pos[Len(r)] <= Len(s)
 
 -----------------------------------------------------------------------------
@@ -95,7 +96,8 @@ IsSubseq(r, s) ==
 Dedup(s) ==
   LET f[i \in 0..Len(s)] ==
         IF i = 0 THEN <<>>
-        ELSE IF \E j \in 1..Len(f[i-1]) : f[i-1][j] = s[i] THEN f[i-1] ELSE Append(f[i-1], s[i])
+        ELSE LET o == f[i-1] IN
+             IF \E j \in 1..Len(o) : o[j] = s[i] THEN o ELSE Append(o, s[i])
   IN f[Len(s)]
 
 \* declarative: no repeats, same elements, ordered by index of first occurrence
@@ -112,7 +114,7 @@ InsSortInts(s) ==
   LET ins(t, x) ==       \* insert x after the last element <= x
         LET k == Cardinality({j \in 1..Len(t) : t[j] <= x})
         IN [j \in 1..(Len(t) + 1) |-> IF j <= k THEN t[j] ELSE IF j = k + 1 THEN x ELSE t[j-1]]
-      f[i \in 0..Len(s)] == IF i = 0 THEN <<>> ELSE ins(f[i-1], s[i])
+      f[i \in 0..Len(s)] == IF i = 0 THEN <<>> ELSE LET t0 == f[i-1] IN ins(t0, s[i])
   IN f[Len(s)]
 
 \* declarative: the k-th smallest value, by counting
@@ -159,7 +161,8 @@ RetainedDecl(vals) ==
 RetainedOp(vals) ==
   LET f == FenceOp(vals)
       g[i \in 0..Len(vals)] ==
-        IF i = 0 THEN <<>> ELSE IF Inside(f, vals[i]) THEN Append(g[i-1], vals[i]) ELSE g[i-1]
+        IF i = 0 THEN <<>>
+        ELSE LET r == g[i-1] IN IF Inside(f, vals[i]) THEN Append(r, vals[i]) ELSE r
   IN g[Len(vals)]
 
 SeqMin(s) == CHOOSE v \in Range(s) : \A w \in Range(s) : v <= w
@@ -179,12 +182,13 @@ NoCell == [has |-> FALSE]
 -----------------------------------------------------------------------------
 \* MANN-WHITNEY, exact two-sided p by brute force (definitions of UTest.tla, C11)
 
+\* binomial coefficient, built up as C(n, j) = C(n, j-1) * (n-j+1) / j (exact at every step;
+\* the intermediate products stay below 2^31 for n <= 24)
 Choose(n, k) ==
-  IF k = 0 \/ k = n THEN 1
-  ELSE IF k < 0 \/ n < k THEN 0
-  ELSE LET num[i \in 0..k] == IF i = 0 THEN 1 ELSE num[i-1] * (n - k + i)
-           fac[i \in 0..k] == IF i = 0 THEN 1 ELSE fac[i-1] * i
-       IN num[k] \div fac[k]
+  IF k < 0 \/ n < k THEN 0
+  ELSE LET kk == Min2(k, n - k)
+           c[j \in 0..kk] == IF j = 0 THEN 1 ELSE (c[j-1] * (n - j + 1)) \div j
+       IN c[kk]
 
 \* Brute force over all assignment classes: x of the t[k] pooled elements of tie group k
 \* (groups in increasing order of value) go to sample 1, in Choose(t[k], x) ways.  An
@@ -295,11 +299,12 @@ InsSort(n, Lt(_, _), rev) ==
       sink(p, j) == IF j > 1 /\ less(p[j], p[j-1])
                     THEN sink([p EXCEPT ![j] = p[j-1], ![j-1] = p[j]], j - 1)
                     ELSE p
-      f[i \in 1..Max2(n, 1)] == IF i = 1 THEN [k \in 1..n |-> k] ELSE sink(f[i-1], i)
+      f[i \in 1..Max2(n, 1)] == IF i = 1 THEN [k \in 1..n |-> k] ELSE LET p0 == f[i-1] IN sink(p0, i)
   IN IF n = 0 THEN <<>> ELSE f[n]
 
 \* rational keys <<num, den>>, den > 0 (products stay below 2^31 for the value ranges used)
 KeyLt(a, b) == a[1] * b[2] < b[1] * a[2]
+\* (delta keys are carried without the factor 100: only their order matters)
 
 -----------------------------------------------------------------------------
 \* THE COLLECTION
@@ -388,7 +393,7 @@ RowOf(fl, gb, u) ==
 \* sort key of a row whose delta is shown: |pct| * change as a rational
 DeltaKey(row, shown) ==
   IF row.cmp.k = "cmp" /\ shown /\ row.cmp.yes.delta = "pct" /\ ~row.cmp.dfree
-  THEN <<row.cmp.yes.change * Abs(row.cmp.dn), row.cmp.dd>>
+  THEN <<row.cmp.yes.change * Abs(row.cmp.dn \div 100), row.cmp.dd>>
   ELSE <<0, 1>>
 
 IsCmp(row) == row.cmp.k = "cmp"
@@ -435,7 +440,8 @@ TableOf(fl, u) ==
 GeoOp(tab, c) ==
   LET f[i \in 0..Len(tab.rows)] ==
         IF i = 0 THEN <<>>
-        ELSE IF tab.rows[i].cells[c].has /\ tab.rows[i].cells[c].sum # 0 THEN Append(f[i-1], i) ELSE f[i-1]
+        ELSE LET r == f[i-1] IN
+             IF tab.rows[i].cells[c].has /\ tab.rows[i].cells[c].sum # 0 THEN Append(r, i) ELSE r
   IN f[Len(tab.rows)]
 
 Expected ==
@@ -674,14 +680,17 @@ ThoroughPlans == CellPlans(7, CellVals5) \cup PairPlans(5, PairVals4) \cup Small
 SimLow  == {0, 1, 2, 3, 4, 60}
 SimHigh == {0, 2, 4, 5, 7, 60}
 SimZero == {0, 5}
-SimShapes == {<<5>>, <<7>>, <<4, 4>>, <<5, 5>>, <<6, 6>>, <<8, 8>>, <<5, 7>>, <<7, 3>>, <<0, 5>>, <<6, 0>>,
-              <<3, 3, 3>>, <<5, 4, 5>>, <<4, 0, 4>>}
+SimShapes1 == {<<5>>, <<7>>, <<4, 4>>, <<5, 5>>, <<6, 6>>, <<8, 8>>, <<5, 7>>, <<7, 3>>, <<0, 5>>, <<6, 0>>,
+               <<3, 3, 3>>, <<5, 4, 5>>, <<4, 0, 4>>}          \* one measurement per line
+SimShapes2 == {<<3>>, <<5>>, <<3, 3>>, <<4, 4>>, <<5, 5>>, <<5, 3>>, <<2, 5>>, <<0, 4>>, <<3, 3, 3>>, <<4, 0, 3>>}
+                                                               \* up to two (a cell holds <= 10 values)
 SimPlans ==
-  {Plan("sim", l, nb, un, gr, mm, [c \in 1..Len(l) |-> CASE vk = 1 -> SimLow
+  {Plan("sim", l[2], nb, un, gr, l[1], [c \in 1..Len(l[2]) |-> CASE vk = 1 -> SimLow
                                                    [] vk = 2 -> (IF c = 2 THEN SimHigh ELSE SimLow)
                                                    [] vk = 3 -> (IF c = 1 THEN {3} ELSE SimLow)
                                                    [] vk = 4 -> SimZero]) :
-     l \in SimShapes, nb \in {{1}, {1, 2}, {1, 2, 3}}, un \in {{1}, {2}, {3}, {1, 2}, {1, 2, 3}},
-     gr \in {{0}, {1, 2}, {0, 1}}, mm \in {1, 2}, vk \in {1, 2, 3, 4}}
+     l \in ({1} \X SimShapes1) \cup ({2} \X SimShapes2),
+     nb \in {{1}, {1, 2}, {1, 2, 3}}, un \in {{1}, {2}, {3}, {1, 2}, {1, 2, 3}},
+     gr \in {{0}, {1, 2}, {0, 1}}, vk \in {1, 2, 3, 4}}
 
 =============================================================================
